@@ -12,6 +12,7 @@ import (
 	abci "github.com/cometbft/cometbft/abci/types"
 
 	"cosmossdk.io/math"
+	storetypes "cosmossdk.io/store/types"
 	clienttx "github.com/cosmos/cosmos-sdk/client/tx"
 	cryptotypes "github.com/cosmos/cosmos-sdk/crypto/types"
 	sdk "github.com/cosmos/cosmos-sdk/types"
@@ -337,6 +338,7 @@ func (ch *Chain) Exec(e M) Outcome {
 		case "sendPanic":
 			*f.Fault = Fault{Method: "SendCoinsFromModuleToAccount", Panic: true, Armed: true}
 		}
+		hookGasOK := ch.hookGasWithinBound(e)
 		r := Deliver(f, ch.Ctx, ch.toMsg(e))
 		*f.Fault = Fault{}
 		if !r.OK {
@@ -354,7 +356,8 @@ func (ch *Chain) Exec(e M) Outcome {
 				"denom": c.DenomName(get(opchildtypes.AttributeKeyDenom)), "base": c.DenomName(get(opchildtypes.AttributeKeyBaseDenom)), "amt": ch.unitsStr(get(opchildtypes.AttributeKeyAmount)),
 				"height": atoi(get(opchildtypes.AttributeKeyFinalizeHeight)), "success": get(opchildtypes.AttributeKeySuccess) == "true"}
 		}
-		return Outcome{OK: true, Resp: M{"result": map[string]string{"RESPONSE_RESULT_TYPE_SUCCESS": "SUCCESS", "RESPONSE_RESULT_TYPE_NOOP": "NOOP"}[res.Result.String()], "ev": ev, "wd": ch.withdrawEvent(r.Events)}}
+		return Outcome{OK: true, Resp: M{"result": map[string]string{"RESPONSE_RESULT_TYPE_SUCCESS": "SUCCESS", "RESPONSE_RESULT_TYPE_NOOP": "NOOP"}[res.Result.String()], "ev": ev,
+			"wd": ch.withdrawEvent(r.Events), "hookGasOK": hookGasOK}}
 	case "InitiateTokenWithdrawal":
 		r := Deliver(f, ch.Ctx, ch.toMsg(e))
 		if !r.OK {
@@ -416,6 +419,49 @@ func (ch *Chain) Exec(e M) Outcome {
 		return out
 	}
 	panic("unknown event type " + ty)
+}
+
+// hookGasWithinBound measures, on branches of the current state, the gas the handler charges for the hook of
+// deposit e: gas(handler with the hook) - gas(same deposit with a hook that fails before running anything, or
+// with no hook when the hook succeeds).  The difference must not exceed the configured HookMaxGas (C07).
+func (ch *Chain) hookGasWithinBound(e M) bool {
+	hook := absx.Map(e["hook"])
+	if k := absx.Str(hook["kind"]); k == "none" || k == "undecodable" {
+		return true
+	}
+	gasOf := func(ev M) (uint64, bool, bool) {
+		fork := ch.Fork()
+		fork.Ctx = fork.Ctx.WithGasMeter(storetypes.NewGasMeter(500_000_000))
+		r := Deliver(fork.F, fork.Ctx, fork.toMsg(ev))
+		if !r.OK {
+			return 0, false, false
+		}
+		succ, _ := attr(r.Events, opchildtypes.EventTypeFinalizeTokenDeposit, opchildtypes.AttributeKeySuccess)
+		return fork.Ctx.GasMeter().GasConsumed(), succ == "true", true
+	}
+	with, success, ok := gasOf(e)
+	if !ok {
+		return true // the message itself is rejected; nothing to measure
+	}
+	base := M{}
+	for k, v := range e {
+		base[k] = v
+	}
+	if success {
+		base["hook"] = M{"kind": "none", "signer": "", "msgs": []any{}}
+	} else {
+		base["hook"] = M{"kind": "undecodable", "signer": "", "msgs": []any{}}
+	}
+	without, _, ok2 := gasOf(base)
+	if !ok2 {
+		return true
+	}
+	p, err := ch.F.Child.GetParams(ch.Ctx)
+	if err != nil {
+		panic(err)
+	}
+	const slack = 3000 // event attribute / reason string differences between the two runs
+	return with <= without+p.HookMaxGas+slack
 }
 
 // Project reads the abstract L2Child state record out of the real stores.
